@@ -41,7 +41,28 @@ pub fn corr(seed: u64, n: u64) {
     let mut rng = Rng(seed ^ 0xC06);
     let mut stats = Stats::new();
     for _ in 0..n {
-        match rng.i(4) {
+        match rng.i(5) {
+            4 => {
+                // path-level boxes of a 1-D path (the generic code at Point = f64): 0..5 curves, constant pieces forced in
+                let k = rng.i(6) as usize;
+                let val = |rng: &mut Rng| if rng.i(5) == 0 { 5.0 } else { rng.r(0.0, 100.0) };
+                let start = val(&mut rng);
+                let mut pts: Vec<(f64, f64, f64)> = vec![];
+                let mut prev = start;
+                for _ in 0..k {
+                    let c = if rng.i(6) == 0 { (prev, prev, prev) } else { (val(&mut rng), val(&mut rng), val(&mut rng)) };
+                    prev = c.2; pts.push(c);
+                }
+                let path: (f64, Vec<(f64, f64, f64)>) = (start, pts.clone());
+                let b: Bounds<f64> = path.bounding_box();
+                let f: Bounds<f64> = path.fast_bounding_box();
+                let mut flat = vec![start];
+                for (a, b2, c) in &pts { flat.extend_from_slice(&[*a, *b2, *c]); }
+                let line = format!("C06 pbox R #{} {} | {} {} {} {}", k, hxs(&flat), hx(b.min()), hx(b.max()), hx(f.min()), hx(f.max()));
+                stats.case(&line, k > 1);
+                stats.count(&format!("pbox.curves_{}", k));
+                println!("{}", line);
+            }
             0 => corr_dim::<f64>(&mut rng, &mut stats),
             1 => corr_dim::<Coord2>(&mut rng, &mut stats),
             2 => corr_dim::<Coord3>(&mut rng, &mut stats),
